@@ -244,7 +244,42 @@ func genC24(t *rapid.T) c24Case {
 	regd := 0
 	for i := 0; i < n; i++ {
 		mid := uint16(rapid.IntRange(1, 5).Draw(t, "mid"))
-		switch rapid.SampledFrom([]string{"pub-tit3", "pub-mid0", "pub-dup-qos0", "sub-qos3", "sub-badfilter", "sub-mid0", "unsub-bad", "reg-bad", "pub-predef-bad", "pub-short-bad", "proper", "proper"}).Draw(t, "kind") {
+		switch rapid.SampledFrom([]string{"pub-tit3", "pub-mid0", "pub-dup-qos0", "sub-qos3", "sub-badfilter", "sub-mid0", "unsub-bad", "reg-bad", "pub-predef-bad", "pub-short-bad", "pub-cross", "pub-cross", "sub-cross", "sub-cross", "proper", "proper"}).Draw(t, "kind") {
+		case "pub-cross":
+			// the full cross product: topic form x QoS code (3 = QoS -1) x message ID (0 too) x DUP
+			p := snref.Pkt{Type: snref.PUBLISH, QoS: byte(rapid.IntRange(0, 3).Draw(t, "xqos")), MsgID: uint16(rapid.SampledFrom([]int{0, 0, 3, 9}).Draw(t, "xmid")),
+				DUP: rapid.IntRange(0, 3).Draw(t, "xdup") == 0, Retain: rapid.Bool().Draw(t, "xretain"), Data: []byte("x")}
+			switch rapid.IntRange(0, 2).Draw(t, "xform") {
+			case 0:
+				add(gwgen.SN(gwgen.Register("t/ok", mid))) // gets the first free ID (4) unless taken
+				p.TIT, p.TopicID = snref.TITNormal, uint16(rapid.SampledFrom([]int{4, 4, 5}).Draw(t, "xtid"))
+			case 1:
+				p.TIT, p.TopicID = snref.TITPredefined, 1
+			default:
+				p.TIT, p.TopicID = snref.TITShort, snref.ShortID("ab")
+			}
+			if p.QoS == 3 || (p.MsgID == 0 && (p.QoS == 1 || p.QoS == 2)) || (p.DUP && (p.QoS == 0 || p.QoS == 3)) {
+				imp("publish-cross-improper")
+			}
+			add(gwgen.SN(p))
+		case "sub-cross":
+			p := snref.Pkt{Type: rapid.SampledFrom([]byte{snref.SUBSCRIBE, snref.SUBSCRIBE, snref.UNSUBSCRIBE}).Draw(t, "xsubtype"), QoS: byte(rapid.IntRange(0, 3).Draw(t, "xqos")),
+				MsgID: uint16(rapid.SampledFrom([]int{0, 3, 9}).Draw(t, "xmid")), DUP: rapid.IntRange(0, 3).Draw(t, "xdup") == 0}
+			switch rapid.IntRange(0, 2).Draw(t, "xform") {
+			case 0:
+				p.TIT, p.TopicName = snref.TITNormal, rapid.SampledFrom([]string{"t/a", "t/+", "#"}).Draw(t, "xfilter")
+			case 1:
+				p.TIT, p.TopicID = snref.TITPredefined, uint16(rapid.SampledFrom([]int{1, 2, 3}).Draw(t, "xpid"))
+			default:
+				p.TIT, p.TopicID = snref.TITShort, snref.ShortID(rapid.SampledFrom([]string{"ab", "a+", "#/"}).Draw(t, "xshort"))
+			}
+			if p.Type == snref.UNSUBSCRIBE {
+				p.QoS = 0
+			}
+			if p.QoS == 3 || p.MsgID == 0 {
+				imp("subscribe-cross-improper")
+			}
+			add(gwgen.SN(p))
 		case "pub-tit3":
 			imp("publish-tit3")
 			add(gwgen.SN(gwgen.Publish(3, uint16(rapid.IntRange(0, 3).Draw(t, "tid")), byte(rapid.IntRange(0, 3).Draw(t, "qos")), mid, []byte("x"))))
@@ -303,7 +338,7 @@ func genC24(t *rapid.T) c24Case {
 func TestC24(t *testing.T) {
 	vf.Check(t, vf.Prop[c24Case]{
 		ID: "C24", Name: "mqtt-valid", Bubble: true,
-		Rule: "session histories made of decodable but improper client input mixed with proper traffic: PUBLISH with topic-ID type 3, message ID 0 at QoS 1/2, DUP with QoS 0/-1; SUBSCRIBE with QoS 3, message ID 0, malformed-wildcard / NUL / invalid-UTF-8 filters; UNSUBSCRIBE likewise; REGISTER of names containing wildcards, NUL or invalid UTF-8 followed by PUBLISH on the returned ID; predefined and short topics with such names; Will flag with empty WILLTOPIC, will QoS 3, bad will topics; client IDs and user names with arbitrary bytes. Non-trivial = a history with at least one improper input that the gateway did not reject at decode time; distinct by script.",
+		Rule: "session histories made of decodable but improper client input mixed with proper traffic: PUBLISH with topic-ID type 3, message ID 0 at QoS 1/2, DUP with QoS 0/-1, and the cross product topic form (registered, predefined, short) x QoS code 0-3 x message ID (0 too) x DUP x retain; SUBSCRIBE and UNSUBSCRIBE over the same cross product; SUBSCRIBE with QoS 3, message ID 0, malformed-wildcard / NUL / invalid-UTF-8 filters; UNSUBSCRIBE likewise; REGISTER of names containing wildcards, NUL or invalid UTF-8 followed by PUBLISH on the returned ID; predefined and short topics with such names; Will flag with empty WILLTOPIC, will QoS 3, bad will topics; client IDs and user names with arbitrary bytes. Non-trivial = a history with at least one improper input that the gateway did not reject at decode time; distinct by script.",
 		Assumptions: []string{"judged per packet against MQTT 3.1.1 normative statements only (each violation kind names its clause)", "second CONNECTs on one connection and QoS -1 PUBLISH before CONNECT are deliberate project behaviours and are not judged"},
 		Gen:         genC24,
 		Run: func(c c24Case) (r vf.Result) {
